@@ -146,10 +146,30 @@ def _networks():
     return out
 
 
+def _timed():
+    from harness import timedcache
+    traces = common.pmap(timedcache.timed_history, [(993000 + i, 18) for i in range(12)], chunksize=4)
+    honest = common.tlc_eval('TimedCacheEval', [{'events': t['events']} for t in traces], cfg='TimedCacheEval.cfg')
+    # (the current tree has known oddities of its own here - see DESIGN 0.5 -: only histories accepted as recorded are used)
+    good = [t for t, v in zip(traces, honest) if not v['issues']]
+    out = [('timed-cache histories accepted as recorded (%d of %d)' % (len(good), len(traces)), len(good) >= 4, '')]
+    bad = []
+    for t in good:
+        ev = copy.deepcopy(t['events'])
+        k = next((i for i, e in enumerate(ev) if e['ok'] and not e['asked'] and e['x'] == 'blockcount'), None)
+        if k is not None:
+            ev[k]['dt'] += 61           # the same answer, served from the cache, but a minute later than recorded
+            bad.append({'events': ev[:k + 1]})
+    v = common.tlc_eval('TimedCacheEval', bad, cfg='TimedCacheEval.cfg')
+    out.append(('a cached block count served 61 s later than recorded -> rejected (%d histories)' % len(bad),
+                bool(bad) and all(any('time-to-live' in i['why'] for i in x['issues']) for x in v), ''))
+    return out
+
+
 def run():
     common.fresh_bitcoinlib_env()
     results = []
-    for part in (_wallet, _cache, _signing, _networks):
+    for part in (_wallet, _cache, _signing, _networks, _timed):
         results += part()
     bad = 0
     for text, ok, _ in results:
